@@ -91,12 +91,17 @@ Definition adjacent (st : pstate) : option bool :=
       if negb (N.eqb (tline p) (tline b)) then Some false
       else
         let plen :=
+          match tnorm p, tk p with
+          | Some o, STRING => Some (len (text_of p) + 2)
+          | Some o, _ => Some (len o)          (* an alias is as long as it was written (/repo fix: adjacency) *)
+          | None, _ =>
           match tk p, tv p with
           | NUMBER, TVNum raw => Some (len raw)
           | BOOLEAN, TVBool v => Some (if v then 4 else 5)
           | NULL, _ => Some 4
           | STRING, TVText s => Some (len s + 2)
           | _, _ => match value_str p with Some s => Some (len s) | None => None end
+          end
           end in
         match plen with Some n => Some (N.eqb (tcol p + n) (tcol b)) | None => None end
   end.
